@@ -134,10 +134,18 @@ func c09ScenarioWith(store, pre string, nChecks int, bound int, ans *world.Answe
 // sequential clause: the logout answer itself, also under store faults
 func c09SeqMonitor(run *ev.Run, spec world.Spec) hMonitor {
 	return func(h *hSys, o *hObs, hist []seqx.Event) {
-		if !strings.HasPrefix(o.Req.Path, world.LogoutPath) || o.Res.Crashed || o.Res.Panic != "" {
+		if o.Res.Crashed || o.Res.Panic != "" {
 			return
 		}
 		full := append(append([]seqx.Event{}, hist...), o.Event)
+		if !strings.HasPrefix(o.Req.Path, world.LogoutPath) {
+			// finality in sequential histories: a session that a logout removed and that no login has filled since
+			if o.Res.OK && o.SID != "" && (o.PreGhost == nil || o.PreGhost.Tokens == nil) && strings.HasPrefix(o.PreRemovedBy, "Process") && !strings.Contains(o.PreRemovedBy, "redirectToIDP") && !o.RedisFailed {
+				run.Violation("C09 ok-after-logout sequential store="+spec.Store+fmt.Sprintf(" replicas=%d", max(spec.Replicas, 1)),
+					fmt.Sprintf("request %+v carrying the cookie of a session that a logout removed (%s) is answered OK although no login has completed since", o.Req, o.PreRemovedBy), c01Replay{Spec: spec, History: full})
+			}
+			return
+		}
 		removeFailed := false
 		removeEffective := false
 		for _, c := range o.Calls {
@@ -236,14 +244,21 @@ func c09Run(run *ev.Run) {
 	for _, spec := range []world.Spec{
 		{Store: "memory", Forward: true, Logout: true},
 		{Store: "redis", Forward: true, Logout: true},
+		{Store: "redis", Forward: true, Logout: true, Replicas: 2},
 		{Store: "memory", Forward: true, Logout: true, Discovery: true},
 		{Store: "memory", Forward: true, Logout: true, Discovery: true, NoLogoutRedirect: true},
 	} {
 		o := hOpts{Spec: spec, Logout: true, Faults: true, RedisFaults: spec.Store == "redis", MaxDev: 1, FaultModes: []string{"before", "after"}, MaxSessions: 2, Advance: true}
+		if spec.Replicas == 2 {
+			o.Faults, o.RedisFaults, o.MaxDev = false, false, 0
+		}
 		m := o.model(c09SeqMonitor(run, spec))
 		m.MaxDepth = 4
 		if run.Tier == "thorough" {
 			m.MaxDepth = 5
+		}
+		if spec.Replicas == 2 {
+			m.MaxDepth++ // login (2 requests), use on one replica, logout on the other, use again
 		}
 		st := seqx.Explore(run, m)
 		states += st.States
